@@ -105,7 +105,7 @@ def run_shard(tier, seed, idx, n, res, tmp):
         for ci in range(idx, b['models'], n):
             cs = common.case_seed(PROPERTY, seed, ci)
             rnd = random.Random(cs)
-            m = gm.generate(cs)
+            m = gm.generate(cs, gm.make_profile(p_cfg_ts_bytes_attr=0.3))
             files = gr.render(m, gr.Layout(cs) if rnd.random() < 0.5 else None)
             for mi in range(b['mutants_per']):
                 fi = rnd.randrange(len(files))
